@@ -86,6 +86,13 @@ func (ex *Exec) callCommon(fr *frame, c *ssa.CallCommon, site ssa.Instruction, g
 			// function-typed value with a callback contract keyed by parameter/field name
 			if key := ex.callbackKey(fr, c.Value); key != "" {
 				if fc, ok := ex.db.Funcs[key]; ok {
+					if ex.traceOn {
+						ex.trace = append(ex.trace, Event{Kind: "call", Guard: g, Instr: site, Callee: key, Args: args, St: s.clone(), Depth: len(ex.stack) - 1})
+						ti := len(ex.trace) - 1
+						og, ov := ex.applyContract(fr, fc, nil, c.Signature(), args, nil, g, s, site, key)
+						ex.trace[ti].Res = &ov
+						return og, ov
+					}
 					return ex.applyContract(fr, fc, nil, c.Signature(), args, nil, g, s, site, key)
 				}
 			}
@@ -107,6 +114,10 @@ func (ex *Exec) callCommon(fr *frame, c *ssa.CallCommon, site ssa.Instruction, g
 	if fc, ok := ex.db.Funcs[key]; ok {
 		if ex.traceOn {
 			ex.trace = append(ex.trace, Event{Kind: "call", Guard: g, Instr: site, Callee: key, Args: args, St: s.clone(), Depth: len(ex.stack) - 1})
+			ti := len(ex.trace) - 1
+			og, ov := ex.applyContract(fr, fc, callee, callee.Signature, args, nil, g, s, site, key)
+			ex.trace[ti].Res = &ov
+			return og, ov
 		}
 		return ex.applyContract(fr, fc, callee, callee.Signature, args, nil, g, s, site, key)
 	}
@@ -545,6 +556,12 @@ func (ex *Exec) havocModifies(fc *FuncContract, env *SpecEnv, s *State, g string
 			ex.havocNewObjects(s, g, oldNext)
 			continue
 		}
+		if ks, ok := ex.allButKeys(it, env); ok {
+			for _, k := range ks {
+				u.havoc(s, k)
+			}
+			continue
+		}
 		keys, precise := ex.modItem(it, env)
 		for i, k := range keys {
 			if k == "*" {
@@ -828,4 +845,34 @@ func (ex *Exec) stack0() *ssa.Function {
 		return nil
 	}
 	return ex.stack[0]
+}
+
+// allButKeys: `allbut(item; item; ...)` = every registered heap key except those the items name.
+func (ex *Exec) allButKeys(it string, env *SpecEnv) ([]string, bool) {
+	it = strings.TrimSpace(it)
+	if !strings.HasPrefix(it, "allbut(") || !strings.HasSuffix(it, ")") {
+		return nil, false
+	}
+	keep := map[string]bool{}
+	for _, sub := range strings.Split(it[7:len(it)-1], ";") {
+		sub = strings.TrimSpace(sub)
+		if sub == "" {
+			continue
+		}
+		ks, _ := ex.modItem(sub, env)
+		for _, k := range ks {
+			keep[k] = true
+		}
+	}
+	var out []string
+	for k := range ex.u.keySorts {
+		if keep[k] || isLocalKey(k) {
+			continue
+		}
+		if strings.HasPrefix(k, "H$") || strings.HasPrefix(k, "A$") || strings.HasPrefix(k, "M$") || strings.HasPrefix(k, "MD$") || strings.HasPrefix(k, "C$") || strings.HasPrefix(k, "GV$") {
+			out = append(out, k)
+		}
+	}
+	sort.Strings(out)
+	return out, true
 }
